@@ -1,4 +1,32 @@
 package main
 
+import (
+	"go/ast"
+)
+
 func factsC06() {
+	// ---- C06
+	// sortIngress: tie break on namespace/name
+	var ret []string
+	ast.Inspect(funcDecl("pkg/converters/ingress/ingress.go", "sortIngress"), func(n ast.Node) bool {
+		if r, ok := n.(*ast.ReturnStmt); ok && len(r.Results) == 1 {
+			if b, ok := r.Results[0].(*ast.BinaryExpr); ok {
+				ret = append(ret, c05Expr(b))
+			}
+		}
+		return true
+	})
+	addStrList("c06SortIngressTieBreak", ret, "ingress.go sortIngress: second key of the order")
+	// rebuildMatchFiles: the maps ranged over (iteration order reaches the layout of the match files)
+	var rng []string
+	ast.Inspect(methodDecl("pkg/haproxy/types/maps.go", "HostsMap", "rebuildMatchFiles").Body, func(n ast.Node) bool {
+		if r, ok := n.(*ast.RangeStmt); ok {
+			s := c05Expr(r.X)
+			if s == "hm.rawhosts" {
+				rng = append(rng, s)
+			}
+		}
+		return true
+	})
+	addStrList("c06RawhostsRange", rng, "maps.go rebuildMatchFiles: range over the rawhosts map")
 }
